@@ -125,6 +125,7 @@ type msgFields struct {
 	Address   []byte
 	RespNonce uint64
 	HasResp   bool
+	Limit     math.Int // requested burn limit
 }
 
 func newH(sfx string) *H {
@@ -403,7 +404,8 @@ func (h *H) callAdmin(idx int, from string) (ok bool, panicked bool) {
 		case hSetMaxBurnAmountPerMessage:
 			h.M.Local = verifrt.NondetString("m_local", 4)
 			h.shape(asciiStr(h.M.Local))
-			_, err = h.S.SetMaxBurnAmountPerMessage(ctx, &types.MsgSetMaxBurnAmountPerMessage{From: from, LocalToken: h.M.Local, Amount: h.amount("m_limit")})
+			h.M.Limit = h.amount("m_limit")
+			_, err = h.S.SetMaxBurnAmountPerMessage(ctx, &types.MsgSetMaxBurnAmountPerMessage{From: from, LocalToken: h.M.Local, Amount: h.M.Limit})
 		case hLinkTokenPair:
 			h.M.Domain = verifrt.NondetU32("m_domain")
 			h.M.Token = verifrt.NondetBytesOrNil("m_token", 33)
